@@ -1,13 +1,20 @@
 (* The derive macro and the library impls as a generator of TypeScript ASTs: TS::name(), inline(),
-   inline_flattened(), decl(), decl_concrete() for every type of the fragment (Model/Rust.v).
-   `print` of the result (Model/TsAst.v) is compared byte for byte with the implementation.
+   inline_flattened(), decl(), decl_concrete(), visit_generics(), visit_dependencies() for every
+   type of the fragment (Model/Rust.v).  `print` of the result (Model/TsAst.v) is compared byte for
+   byte with the implementation.
    Mirrors macros/src/types/{mod,named,newtype,tuple,unit,enum,type_as,type_override}.rs,
-   macros/src/lib.rs (generate_decl_fn, name_with_generics, format_generics) and the hand-written
-   impls of ts-rs/src/lib.rs.  Definitions only. *)
+   macros/src/lib.rs (generate_decl_fn, name_with_generics, format_generics), macros/src/deps.rs
+   and the hand-written impls of ts-rs/src/lib.rs.
+
+   Structure (open recursion, so that every proof about the generator is: one lemma about the
+   library layer by induction over `rty`, one lemma about the derive layer by case analysis, and a
+   three-line induction over the fuel):
+     lib_*   : the impls of ts-rs/src/lib.rs, parametrised by what derived types answer;
+     def_*   : what one derive expands to, parametrised by what field types answer;
+     gen/deps: the knot, tied by recursion on fuel (unfolding a named type costs one unit).
+   Definitions only. *)
 From TsRs Require Import Base.Str Base.Outcome Gen.Tables Model.Case Model.TsAst Model.Rust Model.Docs.
 
-(* map with outcomes; `f` is a section parameter so that nested recursive calls through it are
-   accepted by the guard checker (as for List.map) *)
 Section OmapList.
 Context {A B : Type} (f : A -> outcome B).
 Fixpoint omap_list (l : list A) : outcome (list B) :=
@@ -21,6 +28,8 @@ Fixpoint omap_list (l : list A) : outcome (list B) :=
   end.
 End OmapList.
 
+Definition oconcat {A : Type} (l : outcome (list (list A))) : outcome (list A) := omap (@concat A) l.
+
 Section Gen.
 (* Unicode classification used by the macro (char::is_uppercase / is_alphanumeric / is_numeric) *)
 Variable is_upper : char -> bool.
@@ -32,6 +41,7 @@ Definition p_cannot_inline : str := lit "cannot be inlined".
 Definition p_cannot_flatten : str := lit "cannot be flattened".
 Definition p_out_of_fuel : str := lit "out of fuel".
 Definition p_unknown_type : str := lit "unknown type".
+Definition p_param : str := lit "unsubstituted type parameter".
 
 Definition prim (s : String.string) : tsty := TPrim (lit s).
 Arguments prim s%string.
@@ -54,6 +64,11 @@ Definition raw_name_to_ts_field (value : str) : str :=
 
 Definition quoted_head (key : str) : phead :=
   {| p_docs := []; p_key := key; p_text := [34] ++ key ++ [34]; p_optional := false |}.
+Definition plain_head (key : str) : phead :=
+  {| p_docs := []; p_key := key; p_text := key; p_optional := false |}.
+
+Definition array_ts (n : nat) (a : tsty) : tsty :=
+  if Nat.ltb ARRAY_TUPLE_LIMIT n then TArray a else TTuple (repeat a n).
 
 (* --- TS::name() -------------------------------------------------------------------------- *)
 Fixpoint name_of (t : rty) : outcome tsty :=
@@ -61,25 +76,36 @@ Fixpoint name_of (t : rty) : outcome tsty :=
   | RLeaf l => Ok (leaf_ts l)
   | ROption t => bind (name_of t) (fun a => Ok (TUnion [a; prim "null"]))
   | RVec t => bind (name_of t) (fun a => Ok (TArray a))
-  | RArray n t =>
-      bind (name_of t) (fun a =>
-      Ok (if Nat.ltb ARRAY_TUPLE_LIMIT n then TArray a else TTuple (repeat a n)))
+  | RArray n t => bind (name_of t) (fun a => Ok (array_ts n a))
   | RTuple ts => bind (omap_list name_of ts) (fun l => Ok (TTuple l))
   | RMap k v => bind (name_of k) (fun a => bind (name_of v) (fun b => Ok (TMapped a b)))
   | RWrap t => name_of t
   | RResult t e => bind (name_of t) (fun a => bind (name_of e) (fun b => Ok (TResult a b)))
   | RRange t =>
-      bind (name_of t) (fun a =>
-      let h k := {| p_docs := []; p_key := lit k; p_text := lit k; p_optional := false |} in
-      Ok (TObj OStruct [(h "start"%string, a); (h "end"%string, a)]))
+      bind (name_of t) (fun a => Ok (TObj OStruct [(plain_head (lit "start"), a); (plain_head (lit "end"), a)]))
   | RNamed id args =>
       match lookup R id with
       | None => Panic p_unknown_type
       | Some d => bind (omap_list name_of args) (fun l => Ok (TRef (ts_ident d) l))
       end
-  | RParam _ => Panic (lit "unsubstituted type parameter")
+  | RParam _ => Panic p_param
   | RDummy n => Ok (TVar n)
   end.
+
+(* --- TS::visit_generics(): the types handed to the visitor, in order ---------------------- *)
+Fixpoint visit_generics (t : rty) : list rty :=
+  match t with
+  | RLeaf _ => []
+  | ROption u | RVec u | RArray _ u | RWrap u | RRange u => visit_generics u ++ [u]
+  | RTuple ts => flat_map (fun u => u :: visit_generics u) ts
+  | RMap k v | RResult k v => visit_generics k ++ [k] ++ visit_generics v ++ [v]
+  | RNamed _ args => flat_map (fun u => u :: visit_generics u) args
+  | RParam _ => []
+  | RDummy _ => []
+  end.
+
+(* Dependencies::push(ty) = v.visit::<ty>(); ty::visit_generics(v) *)
+Definition push (t : rty) : list rty := t :: visit_generics t.
 
 (* Option<T>::IS_OPTION / OptionInnerType *)
 Definition is_option (t : rty) : bool := match t with ROption _ => true | _ => false end.
@@ -101,196 +127,291 @@ Definition variant_name (rename_all : option rule) (v : variant) : str :=
 
 (* what type_def returns: inline and (maybe) inline_flattened *)
 Definition derived := (tsty * option tsty)%type.
+Definition dgen := typedef -> list rty -> outcome derived.
+Definition ddeps := typedef -> list rty -> outcome (list rty).
 
-(* --- TS::inline() / inline_flattened(); `fuel` bounds unfolding of named types ----------- *)
-Fixpoint inline_of (fuel : nat) (t : rty) {struct fuel} : outcome tsty :=
-  match fuel with
-  | O => Panic p_out_of_fuel
-  | S f =>
-      let inl := inline_of f in
-      let fix lib (t : rty) : outcome tsty :=
-        match t with
-        | RLeaf l => Ok (leaf_ts l)
-        | ROption t => bind (lib t) (fun a => Ok (TUnion [a; prim "null"]))
-        | RVec t => bind (lib t) (fun a => Ok (TArray a))
-        | RArray n t =>
-            bind (lib t) (fun a =>
-            Ok (if Nat.ltb ARRAY_TUPLE_LIMIT n then TArray a else TTuple (repeat a n)))
-        | RTuple _ => Panic (lit "tuple cannot be inlined!")
-        | RMap k v => bind (lib k) (fun a => bind (lib v) (fun b => Ok (TMapped a b)))
-        | RWrap t => lib t
-        | RResult t e => bind (lib t) (fun a => bind (lib e) (fun b => Ok (TResult a b)))
-        | RRange _ => Panic p_cannot_inline
-        | RNamed id args =>
-            match lookup R id with
-            | None => Panic p_unknown_type
-            | Some d => omap fst (def_gen f d args)
-            end
-        | RParam _ => Panic (lit "unsubstituted type parameter")
-        | RDummy _ => Panic p_cannot_inline
-        end in
-      lib t
-  end
+(* ============================ library layer (ts-rs/src/lib.rs) ============================ *)
+Section Lib.
+Variable g : dgen.
+Variable gd : ddeps.
 
-with flat_of (fuel : nat) (t : rty) {struct fuel} : outcome tsty :=
-  match fuel with
-  | O => Panic p_out_of_fuel
-  | S f =>
-      let fix lib (t : rty) : outcome tsty :=
-        match t with
-        | RWrap t => lib t
-        | RNamed id args =>
-            match lookup R id with
-            | None => Panic p_unknown_type
-            | Some d =>
-                bind (def_gen f d args) (fun r =>
-                match snd r with Some x => Ok x | None => Panic p_cannot_flatten end)
-            end
-        | RDummy n => Ok (TVar n)
-        | _ => Panic p_cannot_flatten
-        end in
-      lib t
-  end
-
-(* types/mod.rs: struct_def / enum_def, instantiated at type arguments `args` *)
-with def_gen (fuel : nat) (d : typedef) (args : list rty) {struct fuel} : outcome derived :=
-  match fuel with
-  | O => Panic p_out_of_fuel
-  | S f =>
-      let a := attrs_of d in
-      match c_type a, c_as a with
-      | Some text, _ => Ok (TRaw text, None)
-      | None, Some u => bind (inline_of f (rsubst args u)) (fun x => Ok (x, None))
-      | None, None =>
-          match d with
-          | DStruct a s =>
-              shape_gen f args (c_rename_all a) (c_optional_fields a)
-                (match c_tag a with Some t => Some (t, ts_ident d) | None => None end) s
-          | DEnum a tg raf vs =>
-              match vs with
-              | [] => Ok (prim "never", None)
-              | _ =>
-                  bind (omap_list (variant_gen f args a tg raf) (filter (fun v => negb (v_skip v)) vs))
-                  (fun l => match l with
-                            | [] => Ok (prim "never", None)
-                            | _ => Ok (TUnion l, Some (TParen (TUnion l)))
-                            end)
-              end
-          end
+(* TS::inline() *)
+Fixpoint lib_inline (t : rty) : outcome tsty :=
+  match t with
+  | RLeaf l => Ok (leaf_ts l)
+  | ROption t => bind (lib_inline t) (fun a => Ok (TUnion [a; prim "null"]))
+  | RVec t => bind (lib_inline t) (fun a => Ok (TArray a))
+  | RArray n t => bind (lib_inline t) (fun a => Ok (array_ts n a))
+  | RTuple _ => Panic (lit "tuple cannot be inlined!")
+  | RMap k v => bind (lib_inline k) (fun a => bind (lib_inline v) (fun b => Ok (TMapped a b)))
+  | RWrap t => lib_inline t
+  | RResult t e => bind (lib_inline t) (fun a => bind (lib_inline e) (fun b => Ok (TResult a b)))
+  | RRange _ => Panic p_cannot_inline
+  | RNamed id args =>
+      match lookup R id with
+      | None => Panic p_unknown_type
+      | Some d => omap fst (g d args)
       end
-  end
+  | RParam _ => Panic p_param
+  | RDummy _ => Panic p_cannot_inline
+  end.
+
+(* TS::inline_flattened() *)
+Fixpoint lib_flat (t : rty) : outcome tsty :=
+  match t with
+  | RWrap t => lib_flat t
+  | RNamed id args =>
+      match lookup R id with
+      | None => Panic p_unknown_type
+      | Some d => bind (g d args) (fun r => match snd r with Some x => Ok x | None => Panic p_cannot_flatten end)
+      end
+  | RDummy n => Ok (TVarF n)
+  | _ => Panic p_cannot_flatten
+  end.
+
+(* TS::visit_dependencies() *)
+Fixpoint lib_vdeps (t : rty) : outcome (list rty) :=
+  match t with
+  | RLeaf _ => Ok []
+  | ROption u | RVec u | RArray _ u | RWrap u | RRange u => lib_vdeps u
+  | RTuple _ => Ok []                      (* impl_tuples! has no visit_dependencies *)
+  | RMap k v | RResult k v => bind (lib_vdeps k) (fun a => bind (lib_vdeps v) (fun b => Ok (a ++ b)))
+  | RNamed id args =>
+      match lookup R id with
+      | None => Panic p_unknown_type
+      | Some d => gd d args
+      end
+  | RParam _ => Panic p_param
+  | RDummy _ => Ok []
+  end.
+End Lib.
+
+(* ============================ derive layer (macros/src/types) ============================= *)
+Section Def.
+Variable inl : rty -> outcome tsty.        (* <ty as TS>::inline() *)
+Variable flt : rty -> outcome tsty.        (* <ty as TS>::inline_flattened() *)
+Variable vdp : rty -> outcome (list rty).  (* <ty as TS>::visit_dependencies(v) *)
+
+(* element of a newtype / tuple struct: type override, inline() or name() *)
+Definition value_ty (args : list rty) (fl : field) : outcome tsty :=
+  match f_type fl with
+  | Some text => Ok (TRaw text)
+  | None => if f_inline fl then inl (rsubst args (f_ty fl)) else name_of (rsubst args (f_ty fl))
+  end.
+Definition value_deps (args : list rty) (fl : field) : outcome (list rty) :=
+  match f_type fl with
+  | Some _ => Ok []
+  | None => if f_inline fl then vdp (rsubst args (f_ty fl)) else Ok (push (rsubst args (f_ty fl)))
+  end.
+
+(* named.rs: format_field — (`?` annotation, nullable) *)
+Definition field_optional (opt : optional) (fl : field) (ty : rty) : bool * bool :=
+  match opt, f_optional fl with
+  | _, Optional n => (true, n)
+  | Optional n, NotOptional => (is_option ty, n)
+  | NotOptional, NotOptional => (false, true)
+  end.
+
+Definition field_ty (args : list rty) (opt : optional) (fl : field) : rty :=
+  let ty := rsubst args (f_ty fl) in
+  if snd (field_optional opt fl ty) then ty else option_inner ty.
+
+Definition field_docs (fl : field) : str := parse_docs (f_docs fl).
+
+Definition prop_of (args : list rty) (rename_all : option rule) (opt : optional) (fl : field)
+  : outcome (phead * tsty) :=
+  let key := field_key rename_all fl in
+  match f_type fl with
+  | Some text =>
+      Ok ({| p_docs := field_docs fl; p_key := key; p_text := raw_name_to_ts_field key; p_optional := false |}, TRaw text)
+  | None =>
+      let ty := field_ty args opt fl in
+      let q := fst (field_optional opt fl (rsubst args (f_ty fl))) in
+      bind (if f_inline fl then inl ty else name_of ty) (fun x =>
+      Ok ({| p_docs := field_docs fl; p_key := key; p_text := raw_name_to_ts_field key; p_optional := q |}, x))
+  end.
+
+Definition prop_deps (args : list rty) (opt : optional) (fl : field) : outcome (list rty) :=
+  match f_type fl with
+  | Some _ => Ok []
+  | None =>
+      let ty := field_ty args opt fl in
+      if f_flatten fl || f_inline fl then vdp ty else Ok (push ty)
+  end.
+
+Definition live (fs : list field) : list field := filter (fun fl => negb (f_skip fl)) fs.
+(* a type-overridden field is formatted before `flatten` is looked at *)
+Definition is_flat (fl : field) : bool := f_flatten fl && match f_type fl with Some _ => false | None => true end.
 
 (* types/mod.rs: type_def dispatch on the shape of the fields; `tag` = (tag key, name) *)
-with shape_gen (fuel : nat) (args : list rty) (rename_all : option rule) (opt : optional)
-               (tag : option (str * str)) (s : shape) {struct fuel} : outcome derived :=
-  match fuel with
-  | O => Panic p_out_of_fuel
-  | S f =>
-      let value_ty (fl : field) : outcome tsty :=       (* newtype / tuple element *)
-        match f_type fl with
-        | Some text => Ok (TRaw text)
-        | None => if f_inline fl then inline_of f (rsubst args (f_ty fl)) else name_of (rsubst args (f_ty fl))
-        end in
-      match s with
-      | SUnit => Ok (prim "null", None)
-      | STuple [] => Ok (TNeverArr, None)
-      | STuple [fl] => if f_skip fl then Ok (prim "null", None) else bind (value_ty fl) (fun x => Ok (x, None))
-      | STuple fs =>
-          bind (omap_list value_ty (filter (fun fl => negb (f_skip fl)) fs)) (fun l => Ok (TTuple l, None))
-      | SNamed fs =>
-          match fs, tag with
-          | [], None => Ok (TRecordNever, None)
-          | _, _ =>
-              let prop_of (fl : field) : outcome (phead * tsty) :=
-                let key := field_key rename_all fl in
-                let docs := parse_docs (f_docs fl) in
-                match f_type fl with
-                | Some text =>
-                    Ok ({| p_docs := docs; p_key := key; p_text := raw_name_to_ts_field key; p_optional := false |}, TRaw text)
-                | None =>
-                    let ty := rsubst args (f_ty fl) in
-                    let '(q, nullable) :=
-                      match opt, f_optional fl with
-                      | _, Optional n => (true, n)
-                      | Optional n, NotOptional => (is_option ty, n)
-                      | NotOptional, NotOptional => (false, true)
-                      end in
-                    let ty := if nullable then ty else option_inner ty in
-                    bind (if f_inline fl then inline_of f ty else name_of ty) (fun x =>
-                    Ok ({| p_docs := docs; p_key := key; p_text := raw_name_to_ts_field key; p_optional := q |}, x))
-                end in
-              let flat_ty (fl : field) : outcome tsty :=
-                let ty := rsubst args (f_ty fl) in
-                let nullable :=
-                  match opt, f_optional fl with
-                  | _, Optional n => n
-                  | Optional n, NotOptional => n
-                  | NotOptional, NotOptional => true
-                  end in
-                flat_of f (if nullable then ty else option_inner ty) in
-              let live := filter (fun fl => negb (f_skip fl)) fs in
-              bind (omap_list prop_of (filter (fun fl => negb (f_flatten fl)) live)) (fun props =>
-              bind (omap_list flat_ty (filter f_flatten live)) (fun flats =>
-              let props := match tag with
-                           | Some (t, n) => (quoted_head t, TLit n) :: props
-                           | None => props
-                           end in
-              let obj := TObj OStruct props in
-              match props, flats with
-              | _, [] => Ok (TMerged obj, Some (TMerged obj))
-              | [], [x] => Ok (TMerged (TUnwrap x), Some (TMerged (TInter flats)))
-              | [], _ => Ok (TMerged (TInter flats), Some (TMerged (TInter flats)))
-              | _, _ => Ok (TMerged (TInter (obj :: flats)), Some (TMerged (TInter (obj :: flats))))
-              end))
-          end
+Definition shape_gen (args : list rty) (rename_all : option rule) (opt : optional)
+           (tag : option (str * str)) (s : shape) : outcome derived :=
+  match s with
+  | SUnit => Ok (prim "null", None)
+  | STuple [] => Ok (TNeverArr, None)
+  | STuple [fl] => if f_skip fl then Ok (prim "null", None) else bind (value_ty args fl) (fun x => Ok (x, None))
+  | STuple fs => bind (omap_list (value_ty args) (live fs)) (fun l => Ok (TTuple l, None))
+  | SNamed fs =>
+      match fs, tag with
+      | [], None => Ok (TRecordNever, None)
+      | _, _ =>
+          bind (omap_list (prop_of args rename_all opt) (filter (fun fl => negb (is_flat fl)) (live fs))) (fun props =>
+          bind (omap_list (fun fl => flt (field_ty args opt fl)) (filter is_flat (live fs))) (fun flats =>
+          let props := match tag with
+                       | Some (t, n) => (quoted_head t, TLit n) :: props
+                       | None => props
+                       end in
+          let obj := TObj OStruct props in
+          match props, flats with
+          | _, [] => Ok (TMerged obj, Some (TMerged obj))
+          | [], [x] => Ok (TMerged (TUnwrap x), Some (TMerged (TInter flats)))
+          | [], _ => Ok (TMerged (TInter flats), Some (TMerged (TInter flats)))
+          | _, _ => Ok (TMerged (TInter (obj :: flats)), Some (TMerged (TInter (obj :: flats))))
+          end))
       end
-  end
+  end.
+
+Definition shape_deps (args : list rty) (opt : optional) (s : shape) : outcome (list rty) :=
+  match s with
+  | SUnit => Ok []
+  | STuple [] => Ok []
+  | STuple [fl] => if f_skip fl then Ok [] else value_deps args fl
+  | STuple fs => oconcat (omap_list (value_deps args) (live fs))
+  | SNamed fs => oconcat (omap_list (prop_deps args opt) (live fs))
+  end.
+
+Definition is_named (s : shape) : bool := match s with SNamed _ => true | _ => false end.
+Definition is_unit (s : shape) : bool := match s with SUnit => true | _ => false end.
+Definition lone_field (s : shape) : option field := match s with STuple [fl] => Some fl | _ => None end.
+
+Definition variant_rename_all (raf : option rule) (v : variant) : option rule :=
+  match v_rename_all v with Some r => Some r | None => if is_named (v_shape v) then raf else None end.
+
+(* the type a tagged newtype variant prints for its only field: override or name(); `inline`
+   is not consulted (enum.rs, Adjacently / Internally arms) *)
+Definition lone_ty (args : list rty) (fl : field) : outcome tsty :=
+  match f_type fl with
+  | Some text => Ok (TRaw text)
+  | None => name_of (rsubst args (f_ty fl))
+  end.
 
 (* types/enum.rs: format_variant *)
-with variant_gen (fuel : nat) (args : list rty) (a : cattrs) (tg : tagging) (raf : option rule)
-                 (v : variant) {struct fuel} : outcome tsty :=
-  match fuel with
-  | O => Panic p_out_of_fuel
-  | S f =>
-      let name := variant_name (c_rename_all a) v in
-      let is_named := match v_shape v with SNamed _ => true | _ => false end in
-      let rename_all := match v_rename_all v with Some r => Some r | None => if is_named then raf else None end in
-      let tag := match tg, is_named with Internal t, true => Some (t, name) | _, _ => None end in
-      bind (shape_gen f args rename_all NotOptional tag (v_shape v)) (fun vt =>
-      bind (match v_as v, v_type v with
-            | Some u, _ => name_of (rsubst args u)
-            | None, Some text => Ok (TRaw text)
-            | None, None => Ok (fst vt)
-            end) (fun parsed =>
-      let lone_skipped := match v_shape v with STuple [fl] => f_skip fl | _ => false end in
-      let is_unit := match v_shape v with SUnit => true | _ => false end in
-      let obj l := TObj OVariant l in
-      if v_untagged v then Ok parsed else
-      match tg with
-      | Untagged => Ok parsed
-      | External =>
-          if is_unit || lone_skipped then Ok (TLit name) else Ok (obj [(quoted_head name, parsed)])
-      | Adjacent t c =>
-          if is_unit || lone_skipped then Ok (obj [(quoted_head t, TLit name)])
-          else Ok (obj [(quoted_head t, TLit name); (quoted_head c, parsed)])
-      | Internal t =>
-          match snd vt with
-          | Some _ => Ok parsed
-          | None =>
-              if is_unit || lone_skipped then Ok (obj [(quoted_head t, TLit name)])
-              else Ok (TInter [obj [(quoted_head t, TLit name)]; parsed])
+Definition variant_gen (args : list rty) (a : cattrs) (tg : tagging) (raf : option rule) (v : variant)
+  : outcome tsty :=
+  let name := variant_name (c_rename_all a) v in
+  let tag := match tg, is_named (v_shape v) with Internal t, true => Some (t, name) | _, _ => None end in
+  bind (shape_gen args (variant_rename_all raf v) NotOptional tag (v_shape v)) (fun vt =>
+  bind (match v_as v, v_type v with
+        | Some u, _ => name_of (rsubst args u)
+        | None, Some text => Ok (TRaw text)
+        | None, None => Ok (fst vt)
+        end) (fun parsed =>
+  let obj l := TObj OVariant l in
+  if v_untagged v then Ok parsed else
+  match tg with
+  | Untagged => Ok parsed
+  | External =>
+      match v_shape v, lone_field (v_shape v) with
+      | SUnit, _ => Ok (TLit name)
+      | _, Some fl => if f_skip fl then Ok (TLit name) else Ok (obj [(quoted_head name, parsed)])
+      | _, None => Ok (obj [(quoted_head name, parsed)])
+      end
+  | Adjacent t c =>
+      match v_shape v, lone_field (v_shape v) with
+      | SUnit, _ => Ok (obj [(quoted_head t, TLit name)])
+      | _, Some fl =>
+          if f_skip fl then Ok (obj [(quoted_head t, TLit name)])
+          else bind (lone_ty args fl) (fun x => Ok (obj [(quoted_head t, TLit name); (quoted_head c, x)]))
+      | _, None => Ok (obj [(quoted_head t, TLit name); (quoted_head c, parsed)])
+      end
+  | Internal t =>
+      match snd vt with
+      | Some _ => Ok parsed
+      | None =>
+          match v_shape v, lone_field (v_shape v) with
+          | SUnit, _ => Ok (obj [(quoted_head t, TLit name)])
+          | _, Some fl =>
+              if f_skip fl then Ok (obj [(quoted_head t, TLit name)])
+              else bind (lone_ty args fl) (fun x => Ok (TInter [obj [(quoted_head t, TLit name)]; x]))
+          | _, None => Ok (TInter [obj [(quoted_head t, TLit name)]; parsed])
           end
-      end))
+      end
+  end)).
+
+Definition variant_deps (args : list rty) (v : variant) : outcome (list rty) :=
+  match v_as v, v_type v with
+  | Some u, _ => Ok (push (rsubst args u))
+  | None, Some _ => Ok []
+  | None, None => shape_deps args NotOptional (v_shape v)
   end.
+
+Definition live_variants (vs : list variant) : list variant := filter (fun v => negb (v_skip v)) vs.
+
+(* types/mod.rs: struct_def / enum_def, instantiated at the type arguments `args` *)
+Definition def_body (d : typedef) (args : list rty) : outcome derived :=
+  let a := attrs_of d in
+  match c_type a, c_as a with
+  | Some text, _ => Ok (TRaw text, None)
+  | None, Some u => bind (inl (rsubst args u)) (fun x => Ok (x, None))
+  | None, None =>
+      match d with
+      | DStruct a s =>
+          shape_gen args (c_rename_all a) (c_optional_fields a)
+            (match c_tag a with Some t => Some (t, ts_ident d) | None => None end) s
+      | DEnum a tg raf vs =>
+          match vs with
+          | [] => Ok (prim "never", None)
+          | _ =>
+              bind (omap_list (variant_gen args a tg raf) (live_variants vs))
+              (fun l => Ok (TUnion l, Some (TParen (TUnion l))))
+          end
+      end
+  end.
+
+(* utils.rs: format_generics pushes the defaults of the type parameters *)
+Definition default_deps (a : cattrs) : list rty :=
+  flat_map (fun p => match snd p with Some dflt => push dflt | None => [] end) (c_params a).
+
+Definition def_deps (d : typedef) (args : list rty) : outcome (list rty) :=
+  let a := attrs_of d in
+  omap (fun l => l ++ default_deps a)
+  match c_type a, c_as a with
+  | Some _, _ => Ok []
+  | None, Some u => vdp (rsubst args u)
+  | None, None =>
+      match d with
+      | DStruct a s => shape_deps args (c_optional_fields a) s
+      | DEnum a tg raf vs => oconcat (omap_list (variant_deps args) (live_variants vs))
+      end
+  end.
+End Def.
+
+(* ============================ the knot ===================================================== *)
+Fixpoint gen (fuel : nat) : dgen :=
+  match fuel with
+  | O => fun _ _ => Panic p_out_of_fuel
+  | S f => let g := gen f in def_body (lib_inline g) (lib_flat g)
+  end.
+
+Fixpoint deps (fuel : nat) : ddeps :=
+  match fuel with
+  | O => fun _ _ => Panic p_out_of_fuel
+  | S f => let g := deps f in def_deps (lib_vdeps g)
+  end.
+
+Definition inline_of (fuel : nat) : rty -> outcome tsty := lib_inline (gen fuel).
+Definition flat_of (fuel : nat) : rty -> outcome tsty := lib_flat (gen fuel).
+Definition vdeps_of (fuel : nat) : rty -> outcome (list rty) := lib_vdeps (deps fuel).
 
 (* --- public entry points ----------------------------------------------------------------- *)
 Definition default_fuel : nat := 40.
 
+Definition dummies (a : cattrs) : list rty := map (fun p => RDummy (fst p)) (c_params a).
+
 (* lib.rs: generate_decl_fn — the type instantiated at dummy types named like its parameters *)
 Definition decl_of (fuel : nat) (d : typedef) : outcome tsdecl :=
   let a := attrs_of d in
-  let dummies := map (fun p => RDummy (fst p)) (c_params a) in
-  bind (def_gen fuel d dummies) (fun r =>
+  bind (gen fuel d (dummies a)) (fun r =>
   bind (omap_list (fun p => match snd p with
                             | None => Ok (fst p, None)
                             | Some dflt => bind (name_of dflt) (fun x => Ok (fst p, Some x))
@@ -301,7 +422,7 @@ Definition decl_text (fuel : nat) (d : typedef) : outcome str := omap print_decl
 
 (* decl_concrete(): `type Name = inline();` at the given arguments *)
 Definition decl_concrete_text (fuel : nat) (d : typedef) (args : list rty) : outcome str :=
-  bind (def_gen fuel d args) (fun r =>
+  bind (gen fuel d args) (fun r =>
   Ok (lit "type " ++ ts_ident d ++ lit " = " ++ print (fst r) ++ lit ";")).
 
 Definition name_text (t : rty) : outcome str := omap print (name_of t).
@@ -313,6 +434,31 @@ Definition output_path_of (d : typedef) : str :=
   match c_export_to (attrs_of d) with
   | None => ts_ident d ++ lit ".ts"
   | Some s => if ends_with (lit "/") s then s ++ ts_ident d ++ lit ".ts" else s
+  end.
+
+(* TS::output_path() of any type: only derived types are exportable *)
+Definition out_path (t : rty) : option str :=
+  match t with
+  | RNamed id _ => match lookup R id with Some d => Some (output_path_of d) | None => None end
+  | _ => None
+  end.
+
+Definition ident_of (t : rty) : str :=
+  match t with
+  | RNamed id _ => match lookup R id with Some d => ts_ident d | None => [] end
+  | _ => []
+  end.
+
+(* TS::dependencies(): the exportable visited types as (type, ts_name, output_path) *)
+Definition dependencies_of (fuel : nat) (t : rty) : outcome (list (rty * str * str)) :=
+  omap (flat_map (fun u => match out_path u with Some p => [(u, ident_of u, p)] | None => [] end))
+       (vdeps_of fuel t).
+
+(* TS::WithoutGenerics of a derived type: every parameter replaced by ts_rs::Dummy *)
+Definition without_generics (t : rty) : rty :=
+  match t with
+  | RNamed id args => RNamed id (map (fun _ => RDummy (lit "Dummy")) args)
+  | t => t
   end.
 
 End Gen.
